@@ -100,4 +100,25 @@ CHECKS = {
         "required_probes": {"quick": ["get_with_live_samples", "get_with_lingering_expired_samples", "cleaner_passes"],
                             "thorough": ["get_with_live_samples", "get_with_lingering_expired_samples", "cleaner_passes"]},
     },
+    "C16": {
+        "test": "TestC16",
+        "level": "exploration",
+        "budget": {"quick": 25, "thorough": 400},
+        "rule": ("each evaluation writes a real CDB file (explicit pairs with empty / repeated / long keys and values plus up to 3000 (quick) or "
+                 "30000 (thorough) pseudo-random pairs), then runs cdb.Dump and cdb.Make over simulated streams: read sizes cycled from "
+                 "{asked,1,2,3,4,5,7,4095,4096,4097} (all legal under io.Reader) and, in the fault population, one read or write error at a seeded "
+                 "offset. Without injected errors both must succeed and Make(Dump(file)) must be byte-identical to the file and the dump must list "
+                 "exactly the written pairs in order; with an injected error a call may fail but never return nil with wrong bytes. Lookups "
+                 "(Find/FindNext to EOF for every key, absent keys) are piggy-backed input generation. Non-trivial = segmented or faulty streams "
+                 "or a file larger than one 4 KiB buffer; distinct = hash of file bytes and stream behaviour."),
+        "components": {
+            "real": ["go-cdb-mods writer (NewWriter/Put/Close) on a real file", "go-cdb-mods reader (Open = mmap, FindStart/FindNext)",
+                     "cdb.Dump, cdb.Make"],
+            "stub": [],
+            "simulated": ["the io.Reader / io.Writer / io.WriteSeeker handed to Dump and Make (segmentation, injected errors)"],
+            "not_run": ["no scheduler: nothing in this property is concurrent"],
+        },
+        "assumptions": ["the written file is produced by the package's own writer; Make is expected to lay out hash tables identically (cdbmake layout)"],
+        "required_probes": {"quick": ["file_larger_than_one_buffer", "keys_looked_up"], "thorough": ["file_larger_than_one_buffer", "keys_looked_up"]},
+    },
 }
